@@ -347,7 +347,13 @@ func BuildCte(query *Query, expr *sqlparser.With) error {
 	query.data = data
 	for _, cte := range expr.CTEs {
 		copy := *cte
+		resolving := false
 		query.data[copy.ID.String()] = CteEvaluation(func() (any, error) {
+			if resolving {
+				return nil, EXPECTATION_FAILED.Extend(fmt.Sprintf("common table expression %s references itself", copy.ID.String()))
+			}
+			resolving = true
+			defer func() { resolving = false }()
 			query, err := Prepare(query.data, copy.Subquery, query.options)
 			if err != nil {
 				return nil, err
